@@ -93,8 +93,11 @@ def _pool():
     def rng(ref, rows):
         return Ranges().push(ref, np.asarray(rows, object))
     # shapes 2x2, 1x2, 2x1, 1x1 only: they all stretch to 2x2 (mismatched non-stretchable shapes are not demanded)
-    arrays = [arr([[1, 2], [3, 4]]), arr([[1, 'a'], [True, 0.5]]), arr([[1], [E['#N/A']]]), arr([[sh.EMPTY, 2.0]])]
-    ranges = [('A1:B2', [[1, 2], [3, 4]]), ('A1:A2', [[1], ['x']]), ('A1:B1', [[E['#REF!'], 5]]), ('C3', [[7]]), ('D1:D2', [[sh.EMPTY], [3]])]
+    # (the constant and the all-zero arrays are the degenerate inputs of the statistical kernels: zero variance, zero sums)
+    arrays = [arr([[1, 2], [3, 4]]), arr([[1, 'a'], [True, 0.5]]), arr([[1], [E['#N/A']]]), arr([[sh.EMPTY, 2.0]]),
+              arr([[1, 1], [1, 1]]), arr([[0, 0]])]
+    ranges = [('A1:B2', [[1, 2], [3, 4]]), ('A1:A2', [[1], ['x']]), ('A1:B1', [[E['#REF!'], 5]]), ('C3', [[7]]), ('D1:D2', [[sh.EMPTY], [3]]),
+              ('F1:G2', [[3, 3], [3, 3]])]
     return scal, arrays, ranges, rng
 
 
@@ -163,6 +166,11 @@ def _cases(tier, rng):
         for n in (2, 3, 4, 5):
             for _ in range(per):
                 out.append((name, tuple(rng.choice(specs) for _ in range(n))))
+        # two-vector kernels (correlation, regression, lookups): every ordered pair of array / range operands
+        multi = [s for s in specs if s[0] != 's']
+        for a in multi:
+            for b in multi:
+                out.append((name, (a, b)))
     return out
 
 
